@@ -133,7 +133,11 @@ ReadersClauses(T) ==
            /\ (T.obs.res.status = "ok" => T.obs.res.v = T.obs.res2.v /\ T.obs.res.pos = T.obs.res2.pos /\ SizesEq(T.obs.res.sizes, T.obs.res2.sizes))
         THEN {} ELSE {"equiv"})
 
-Verdict(T) == CASE T.kind = "parse" -> ParseClauses(T)
+\* a definition that must be refused (a bit-field straddles its unit) but was loaded and used: the verdict is "load"; Decode is
+\* not defined for it
+Refused(T) == T.kind \in {"parse", "value", "fault", "commits"} /\ T.type.k \in {"struct", "union"} /\ ~WellFormed(T.type, T.mode)
+Verdict(T) == CASE Refused(T) -> {"load"}
+                [] T.kind = "parse" -> ParseClauses(T)
                 [] T.kind = "readers" -> ReadersClauses(T)
                 [] T.kind = "ctypes" -> CtypesClauses(T)
                 [] T.kind = "commits" -> CommitClauses(T)
